@@ -52,7 +52,7 @@ Fixpoint reindex_from (i : nat) (its : list item) : list item :=
   | it :: r => IIdx (item_id it) (item_hm it) i :: reindex_from (S i) r
   end.
 
-(* cls(*args): __new__ may switch the class to CombinedModelAnalysis; __init__ of the result *)
+(* cls(args...): __new__ may switch the class to CombinedModelAnalysis; __init__ of the result *)
 Definition construct (c : cfg) (cls : ckind) (args : list item) : aval :=
   let k := if existsb (is_model_arg c) args then KModel else cls in
   match k with
@@ -121,19 +121,19 @@ Section Engine.
   (* _summed_log_likelihood: sum(generator); the first exception propagates *)
   Fixpoint serial (l : list A) (x : X) : res :=
     match l with
-    | [] => RVal 0
+    | [] => RVal 0%Z
     | a :: r =>
         match ev a x with
         | RExc => RExc
-        | RVal v => match serial r x with RExc => RExc | RVal s => RVal (v + s) end
+        | RVal v => match serial r x with RExc => RExc | RVal s => RVal (v + s)%Z end
         end
     end.
 
   Definition raises (x : X) (a : A) : bool := match ev a x with RExc => true | RVal _ => false end.
-  Definition val (x : X) (a : A) : Z := match ev a x with RVal v => v | RExc => 0 end.
+  Definition val (x : X) (a : A) : Z := match ev a x with RVal v => v | RExc => 0%Z end.
   (* the property: the sum of every analysis' likelihood; raising iff one of them raises *)
   Definition spec_sum (l : list A) (x : X) : res :=
-    if existsb (raises x) l then RExc else RVal (fold_right Z.add 0 (map (val x) l)).
+    if existsb (raises x) l then RExc else RVal (fold_right Z.add 0%Z (map (val x) l)).
 
   (* AnalysisPool.__init__: n_processes = min(n, n_cores); ceil(n / n_processes) analyses each *)
   Definition ceil_div (n d : nat) : nat := (n + d - 1) / d.
@@ -169,7 +169,7 @@ Section Engine.
         let m := match mask with [] => true | b :: _ => b end in
         let mask' := tl mask in
         match m, q with
-        | true, RVal v :: q' => cons_out q' (sweep drain mask' qs' (acc + v) (S count) exc)
+        | true, RVal v :: q' => cons_out q' (sweep drain mask' qs' (acc + v)%Z (S count) exc)
         | true, RExc :: q' =>
             if drain then cons_out q' (sweep drain mask' qs' acc (S count) true)
             else SRaise (q' :: qs')
@@ -196,7 +196,7 @@ Section Engine.
   Definition pool_call (drain : bool) (n : nat) (procs : list (list A)) (x : X) (masks : list (list bool))
              (qs : list (list res)) : option (res * list (list res)) :=
     let qs1 := enqueue procs x qs in
-    results_loop drain (call_fuel n masks qs1) n masks qs1 0 0 false.
+    results_loop drain (call_fuel n masks qs1) n masks qs1 0%Z 0 false.
 
   (* histories: evaluations and changes of n_cores (the setter builds a fresh pool) *)
   Inductive op := OEval (x : X) (masks : list (list bool)) | OCores (k : nat).
